@@ -68,6 +68,14 @@ def mapState (g : State → State) : StepResult → StepResult
   | .panic site => .panic site
   | .unsupported w => .unsupported w
 
+theorem stopCheck_core (a b : State) (f : Frame) (st : St) (e : Expr) (h : core a = core b) :
+    mapState core (stopCheck a f st e) = mapState core (stopCheck b f st e) := by
+  have hs : a.stopAt = b.stopAt := by have := congrArg State.stopAt h; simpa [core] using this
+  unfold stopCheck
+  rw [hs]
+  repeat' split
+  all_goals simp [mapState, h]
+
 /-- A step on which no interrupt fires, in a session without a tick limit, does the
 same thing (up to ticks / flag / schedule) as the same step of the un-instrumented state. -/
 theorem step_core (s : State) (hl : s.tickLimit = none) (h : fires s = false) :
@@ -85,7 +93,11 @@ theorem step_core (s : State) (hl : s.tickLimit = none) (h : fires s = false) :
       | nil =>
         cases hv : f.values <;> simp [mapState, core, setTop, hf]
       | cons caller rest =>
-        cases hv : f.values <;> simp [mapState, core]
+        cases hv : f.values with
+        | nil => simp [mapState, core]
+        | cons v vs =>
+          by_cases hc : (f.callerId.isSome && s.stopAt == f.callerId) = true <;>
+            simp [hc, mapState, core]
     | (st, e) :: rest =>
       simp [he] at h
       unfold step
@@ -97,7 +109,9 @@ theorem step_core (s : State) (hl : s.tickLimit = none) (h : fires s = false) :
       cases limitExceeded s.stackLimit (f :: callers).length
       · simp only [Bool.false_eq_true, if_false]
         cases dispatch s.prog { f with exprs := rest } st e <;>
-          simp [mapState, core, setTop, hf]
+          first
+          | (apply stopCheck_core; simp [core, setTop, hf])
+          | simp [mapState, core, setTop, hf]
       · simp [mapState, core, setTop, hf]
 end C08
 
@@ -182,6 +196,12 @@ def stateOf : StepResult → Option State
   | .panic _ => none
   | .unsupported _ => none
 
+theorem stopCheck_state (a : State) (f : Frame) (st : St) (e : Expr) :
+    stateOf (stopCheck a f st e) = some a := by
+  unfold stopCheck
+  repeat' split
+  all_goals simp [stateOf]
+
 /-- Bookkeeping facts about any step's successor state. -/
 theorem step_meta (s s' : State) (h : stateOf (step s) = some s') :
     s'.interruptAt = s.interruptAt ∧ s.ticks ≤ s'.ticks ∧ s'.tickLimit = s.tickLimit ∧
@@ -199,8 +219,11 @@ theorem step_meta (s s' : State) (h : stateOf (step s) = some s') :
         cases hv : f.values <;> simp [hv, stateOf] at h
         subst h; simp [setTop, hf]
       | cons caller rest =>
-        cases hv : f.values <;> simp [hv, stateOf] at h
-        subst h; simp
+        cases hv : f.values with
+        | nil => simp [hv, stateOf] at h
+        | cons v vs =>
+          simp only [hv] at h
+          split at h <;> simp [stateOf] at h <;> subst h <;> simp
     | (st, e) :: rest =>
       simp only [he] at h
       split at h
@@ -214,8 +237,8 @@ theorem step_meta (s s' : State) (h : stateOf (step s) = some s') :
             simp [stateOf] at h; subst h; simp [setTop, hf]
             intro hh; simp at hni; rcases hh with hh | hh <;> simp_all
           · rename_i hni _ _
-            split at h <;> simp [stateOf] at h <;> subst h <;> simp [setTop, hf] <;>
-              first | omega | (intro hh; simp_all) | skip
+            split at h <;> (try rw [stopCheck_state] at h) <;> simp [stateOf] at h <;> subst h <;>
+              simp [setTop, hf] <;> first | omega | (intro hh; simp_all) | skip
 end C08
 
 namespace C08
